@@ -470,6 +470,31 @@ func propC18(t *rapid.T) {
 		if got := n.h.Enabled(ctx, lvl); got != (wantHandled || quietWants) {
 			t.Fatalf("handler #%d Enabled(%v)=%v but the core enables mapped level %v: %v", n.id, lvl, got, zl, wantHandled)
 		}
+		if rapid.IntRange(0, 5).Draw(t, "abortedRecordFirst") == 0 {
+			// an earlier record, through this or another handler over the same core, whose value panics while it is being
+			// encoded (user code; the caller recovers, as a request handler would): the records that follow are what they
+			// would have been anyway
+			victim := nodes[rapid.IntRange(0, len(nodes)-1).Draw(t, "abortedVia")]
+			w0, q0 := len(sink.writes), 0
+			if quietLogs != nil {
+				q0 = quietLogs.Len()
+			}
+			func() {
+				defer func() { _ = recover() }()
+				ar := slog.NewRecord(rtime, slog.LevelError+4, "aborted", 0)
+				ar.AddAttrs(slog.String("secret", "token"), slog.Group("request", slog.Int("id", 7), slog.Any("boom", c08PanicObj{})))
+				_ = victim.h.Handle(context.Background(), ar)
+			}()
+			// (whatever the aborted record left in the sinks is its own business)
+			sink.writes = sink.writes[:w0]
+			if obsLogs != nil {
+				obsLogs.TakeAll()
+			}
+			if quietLogs != nil && quietLogs.Len() != q0 {
+				quietLogs.TakeAll()
+				t.Skip("the aborted record reached the observing branch: its bookkeeping starts over")
+			}
+		}
 		before := len(sink.writes)
 		shapeBefore := c18Shapes(actual)
 		if err := n.h.Handle(ctx, r); err != nil {
